@@ -137,8 +137,21 @@ type RtmpMsg struct {
 	Payload []byte // Payload不包含Header内容。如果需要将RtmpMsg序列化成RTMP chunk，可调用 rtmp.ChunkDivider 相关的函数
 }
 
+// 注意，下面这些用于判断消息类型的函数，可能被任意长度（包括0字节）的Payload调用，
+// Payload长度不足以判断时，统一返回false（或0），不能越界访问。
+
+// isExVideoHeader 是否为enhanced RTMP的视频头（首字节最高位为1）
+func (msg RtmpMsg) isExVideoHeader() bool {
+	return len(msg.Payload) >= 1 && msg.Payload[0]&0x80 != 0
+}
+
+// isExFourccHvc1 enhanced RTMP的视频头中，fourcc是否为hvc1
+func (msg RtmpMsg) isExFourccHvc1() bool {
+	return len(msg.Payload) >= 5 && msg.Payload[1] == 'h' && msg.Payload[2] == 'v' && msg.Payload[3] == 'c' && msg.Payload[4] == '1'
+}
+
 func (msg RtmpMsg) IsAvcKeySeqHeader() bool {
-	return msg.Header.MsgTypeId == RtmpTypeIdVideo && msg.Payload[0] == RtmpAvcKeyFrame && msg.Payload[1] == RtmpAvcPacketTypeSeqHeader
+	return msg.Header.MsgTypeId == RtmpTypeIdVideo && len(msg.Payload) >= 2 && msg.Payload[0] == RtmpAvcKeyFrame && msg.Payload[1] == RtmpAvcPacketTypeSeqHeader
 }
 
 func (msg RtmpMsg) IsHevcKeySeqHeader() bool {
@@ -146,26 +159,16 @@ func (msg RtmpMsg) IsHevcKeySeqHeader() bool {
 		return false
 	}
 
-	isExtHeader := msg.Payload[0] & 0x80
-	if isExtHeader != 0 {
+	if msg.isExVideoHeader() {
 		packetType := msg.Payload[0] & 0x0f
-		if msg.Payload[1] == 'h' && msg.Payload[2] == 'v' && msg.Payload[3] == 'c' && msg.Payload[4] == '1' && packetType == RtmpExPacketTypeSequenceStart {
-			return true
-		}
-	} else {
-		return msg.Payload[0] == RtmpHevcKeyFrame && msg.Payload[1] == RtmpHevcPacketTypeSeqHeader
+		return msg.isExFourccHvc1() && packetType == RtmpExPacketTypeSequenceStart
 	}
 
-	return false
+	return len(msg.Payload) >= 2 && msg.Payload[0] == RtmpHevcKeyFrame && msg.Payload[1] == RtmpHevcPacketTypeSeqHeader
 }
 
 func (msg RtmpMsg) IsEnhanced() bool {
-	isExtHeader := msg.Payload[0] & 0x80
-	if isExtHeader != 0 {
-		return true
-	}
-
-	return false
+	return msg.isExVideoHeader()
 }
 
 func (msg RtmpMsg) IsVideoKeySeqHeader() bool {
@@ -173,7 +176,7 @@ func (msg RtmpMsg) IsVideoKeySeqHeader() bool {
 }
 
 func (msg RtmpMsg) IsAvcKeyNalu() bool {
-	return msg.Header.MsgTypeId == RtmpTypeIdVideo && msg.Payload[0] == RtmpAvcKeyFrame && msg.Payload[1] == RtmpAvcPacketTypeNalu
+	return msg.Header.MsgTypeId == RtmpTypeIdVideo && len(msg.Payload) >= 2 && msg.Payload[0] == RtmpAvcKeyFrame && msg.Payload[1] == RtmpAvcPacketTypeNalu
 }
 
 func (msg RtmpMsg) IsHevcKeyNalu() bool {
@@ -181,19 +184,17 @@ func (msg RtmpMsg) IsHevcKeyNalu() bool {
 		return false
 	}
 
-	isExtHeader := msg.Payload[0] & 0x80
-	if isExtHeader != 0 {
+	if msg.isExVideoHeader() {
 		frameType := msg.Payload[0] >> 4 & 0x07
 		packetType := msg.Payload[0] & 0x0F
 		return frameType == RtmpExFrameTypeKeyFrame && packetType != RtmpExPacketTypeSequenceStart
 	}
 
-	return msg.Payload[0] == RtmpHevcKeyFrame && msg.Payload[1] == RtmpHevcPacketTypeNalu
+	return len(msg.Payload) >= 2 && msg.Payload[0] == RtmpHevcKeyFrame && msg.Payload[1] == RtmpHevcPacketTypeNalu
 }
 
 func (msg RtmpMsg) IsEnchanedHevcNalu() bool {
-	isExtHeader := msg.Payload[0] & 0x80
-	if isExtHeader != 0 {
+	if msg.isExVideoHeader() {
 		packetType := msg.Payload[0] & 0x0f
 		if packetType == RtmpExPacketTypeCodedFrames || packetType == RtmpExPacketTypeCodedFramesX {
 			return true
@@ -204,8 +205,7 @@ func (msg RtmpMsg) IsEnchanedHevcNalu() bool {
 }
 
 func (msg RtmpMsg) GetEnchanedHevcNaluIndex() int {
-	isExtHeader := msg.Payload[0] & 0x80
-	if isExtHeader != 0 {
+	if msg.isExVideoHeader() {
 		packetType := msg.Payload[0] & 0x0f
 		switch packetType {
 		case RtmpExPacketTypeCodedFrames:
@@ -224,23 +224,35 @@ func (msg RtmpMsg) IsVideoKeyNalu() bool {
 }
 
 func (msg RtmpMsg) IsAacSeqHeader() bool {
-	return msg.Header.MsgTypeId == RtmpTypeIdAudio && msg.AudioCodecId() == RtmpSoundFormatAac && msg.Payload[1] == RtmpAacPacketTypeSeqHeader
+	return msg.Header.MsgTypeId == RtmpTypeIdAudio && len(msg.Payload) >= 2 && msg.AudioCodecId() == RtmpSoundFormatAac && msg.Payload[1] == RtmpAacPacketTypeSeqHeader
 }
 
+// VideoCodecId
+//
+// @return Payload为空时返回0
 func (msg RtmpMsg) VideoCodecId() uint8 {
-	isExtHeader := msg.Payload[0] & 0x80
-	if isExtHeader == 0 {
+	if len(msg.Payload) == 0 {
+		return 0
+	}
+
+	if !msg.isExVideoHeader() {
 		return msg.Payload[0] & 0xF
 	}
 
-	if msg.Payload[1] == 'h' && msg.Payload[2] == 'v' && msg.Payload[3] == 'c' && msg.Payload[4] == '1' {
+	if msg.isExFourccHvc1() {
 		return RtmpCodecIdHevc
 	}
 
 	return RtmpCodecIdAvc
 }
 
+// AudioCodecId
+//
+// @return Payload为空时返回0
 func (msg RtmpMsg) AudioCodecId() uint8 {
+	if len(msg.Payload) == 0 {
+		return 0
+	}
 	return msg.Payload[0] >> 4
 }
 
@@ -259,19 +271,31 @@ func (msg RtmpMsg) Dts() uint32 {
 //
 // 注意，只有视频才能调用该函数获取pts，音频的dts和pts都直接使用 RtmpMsg.Header.TimestampAbs
 func (msg RtmpMsg) Pts() uint32 {
+	if len(msg.Payload) < 5 {
+		return msg.Header.TimestampAbs
+	}
 	return msg.Header.TimestampAbs + bele.BeUint24(msg.Payload[2:])
 }
 
+// Cts
+//
+// @return Payload长度不足以包含cts时返回0
 func (msg RtmpMsg) Cts() uint32 {
+	if len(msg.Payload) < 5 {
+		return 0
+	}
+
 	if msg.Header.MsgTypeId == RtmpTypeIdAudio {
 		return bele.BeUint24(msg.Payload[2:])
 	}
 
-	isExtHeader := msg.Payload[0] & 0x80
-	if isExtHeader != 0 {
+	if msg.isExVideoHeader() {
 		packetType := msg.Payload[0] & 0x0F
 		switch packetType {
 		case RtmpExPacketTypeCodedFrames:
+			if len(msg.Payload) < 8 {
+				return 0
+			}
 			return bele.BeUint24(msg.Payload[5:])
 		case RtmpExPacketTypeCodedFramesX:
 			return 0
@@ -285,16 +309,14 @@ func (msg RtmpMsg) Cts() uint32 {
 }
 
 func (msg RtmpMsg) DebugString() string {
-	isExtHeader := msg.Payload[0] & 0x80
-	if msg.Header.MsgTypeId == RtmpTypeIdVideo && isExtHeader != 0 {
+	if msg.Header.MsgTypeId == RtmpTypeIdVideo && msg.isExVideoHeader() {
+		isExtHeader := msg.Payload[0] & 0x80
 		frameType := msg.Payload[0] >> 4 & 0x07
 		packetType := msg.Payload[0] & 0x0F // e.g. RtmpExPacketTypeSequenceStart
-		if isExtHeader != 0 {
-			return fmt.Sprintf("type=%d,len=%d,dts=%d, ext(%d, %d, %d), payload=%s",
-				msg.Header.MsgTypeId, msg.Header.MsgLen, msg.Header.TimestampAbs,
-				isExtHeader, frameType, packetType,
-				hex.Dump(nazabytes.Prefix(msg.Payload, 64)))
-		}
+		return fmt.Sprintf("type=%d,len=%d,dts=%d, ext(%d, %d, %d), payload=%s",
+			msg.Header.MsgTypeId, msg.Header.MsgLen, msg.Header.TimestampAbs,
+			isExtHeader, frameType, packetType,
+			hex.Dump(nazabytes.Prefix(msg.Payload, 64)))
 	}
 
 	return fmt.Sprintf("type=%d,len=%d,dts=%d, payload=%s",
